@@ -162,12 +162,12 @@ Section Loop.
              specialize (IH buf2 (S si) (S di) Hinv2 ltac:(lia)).
              destruct (cobs_dec_ref (skipn (S si) frame)) as [tail|]; [|exact IH].
              destruct IH as (buf' & Ed & HP). exists buf'. cbn [length app].
-             replace (di + S (length tail))%nat with (S di + length tail)%nat by lia. split; [unfold byte in *; rewrite Ed; do 3 f_equal; apply dst_eq; cbn [length]; lia|].
-             destruct HP as (P1 & P2 & P3 & P4 & P5). unfold loop_post; unfold byte in *; cbn [length]; rewrite ?app_length, ?Lfn; cbn [length]. repeat split; try assumption; try lia.
+             replace (di + S (length tail))%nat with (S di + length tail)%nat by lia. split; [rewrite Ed; do 3 f_equal; apply dst_eq; cbn [length]; lia|].
+             destruct HP as (P1 & P2 & P3 & P4 & P5). unfold loop_post; cbn [length]; rewrite ?app_length, ?Lfn; cbn [length]. repeat split; try assumption; try lia.
              ++ intros i Hi. rewrite P2 by lia. rewrite R2. destruct (Nat.eqb_spec i di); [lia|reflexivity].
              ++ intros k Hk. destruct k as [|k]; cbn [read_at].
                 ** rewrite Nat.add_0_r, P2 by lia. rewrite R2, Nat.eqb_refl. reflexivity.
-                ** replace (di + S k)%nat with (S di + k)%nat by lia. apply P3. unfold byte in *. cbn [length] in *. cbn [length] in Hk. lia.
+                ** replace (di + S k)%nat with (S di + k)%nat by lia. apply P3. cbn [length] in *. cbn [length] in Hk. lia.
           -- (* the frame ends here: no zero *)
              destruct (Nat.eqb_spec (E - S si) 0); [|lia]. cbn [negb].
              assert (Hinv2 : loop_inv buf (S si) di).
@@ -199,13 +199,13 @@ Section Loop.
              rewrite skipn_skipn' in *. replace (S si + n)%nat with (n + S si)%nat in * by lia.
              destruct (cobs_dec_ref (skipn (n + S si) frame)) as [tail|]; [|exact IH].
              destruct IH as (buf' & Ed & HP). exists buf'. cbn [app]. rewrite app_length, Lfn.
-             replace (di + (n + length tail))%nat with (di + n + length tail)%nat by lia. split; [unfold byte in *; rewrite Ed; do 3 f_equal; apply dst_eq; cbn [length]; lia|].
-             destruct HP as (P1 & P2 & P3 & P4 & P5). unfold loop_post; unfold byte in *; cbn [length]; rewrite ?app_length, ?Lfn; cbn [length]. repeat split; try assumption; try lia.
+             replace (di + (n + length tail))%nat with (di + n + length tail)%nat by lia. split; [rewrite Ed; do 3 f_equal; apply dst_eq; cbn [length]; lia|].
+             destruct HP as (P1 & P2 & P3 & P4 & P5). unfold loop_post; cbn [length]; rewrite ?app_length, ?Lfn; cbn [length]. repeat split; try assumption; try lia.
              ++ intros i Hi. rewrite P2 by lia. rewrite R1.
                 destruct (Nat.leb_spec di i), (Nat.ltb_spec i (di + n)); cbn [andb]; try lia; reflexivity.
              ++ intros k Hk. rewrite read_at_app, Lfn. destruct (Nat.ltb_spec k n).
                 ** rewrite P2 by lia. apply Hdata. assumption.
-                ** replace (di + k)%nat with (di + n + (k - n))%nat by lia. apply P3. unfold byte in *. cbn [length] in *. rewrite ?app_length, ?Lfn in Hk. lia.
+                ** replace (di + k)%nat with (di + n + (k - n))%nat by lia. apply P3. cbn [length] in *. rewrite ?app_length, ?Lfn in Hk. lia.
           -- destruct (Nat.ltb_spec (n + S si) E) as [Hmore|Hlast]; replace (S si + n)%nat with (n + S si)%nat in * by lia.
              ++ destruct (Nat.ltb_spec (n + S si) E); [|lia].
                 destruct (Nat.eqb_spec (E - S si - n) 0); [lia|]. cbn [negb].
@@ -217,8 +217,8 @@ Section Loop.
                 rewrite skipn_skipn' in *. replace (S si + n)%nat with (n + S si)%nat in * by lia.
                 destruct (cobs_dec_ref (skipn (n + S si) frame)) as [tail|]; [|exact IH].
                 destruct IH as (buf' & Ed & HP). exists buf'. rewrite !app_length, Lfn. cbn [length].
-                replace (di + (n + (1 + length tail)))%nat with (S (di + n) + length tail)%nat by lia. split; [unfold byte in *; rewrite Ed; do 3 f_equal; apply dst_eq; cbn [length]; lia|].
-                destruct HP as (P1 & P2 & P3 & P4 & P5). unfold loop_post; unfold byte in *; cbn [length]; rewrite ?app_length, ?Lfn; cbn [length]. repeat split; try assumption; try lia.
+                replace (di + (n + (1 + length tail)))%nat with (S (di + n) + length tail)%nat by lia. split; [rewrite Ed; do 3 f_equal; apply dst_eq; cbn [length]; lia|].
+                destruct HP as (P1 & P2 & P3 & P4 & P5). unfold loop_post; cbn [length]; rewrite ?app_length, ?Lfn; cbn [length]. repeat split; try assumption; try lia.
                 ** intros i Hi. rewrite P2 by lia. rewrite R2. destruct (Nat.eqb_spec i (di + n)); [lia|]. rewrite R1.
                    destruct (Nat.leb_spec di i), (Nat.ltb_spec i (di + n)); cbn [andb]; try lia; reflexivity.
                 ** intros k Hk. rewrite read_at_app, Lfn. destruct (Nat.ltb_spec k n).
@@ -226,7 +226,7 @@ Section Loop.
                    --- destruct (Nat.eq_dec k n) as [->|Hne].
                        +++ rewrite Nat.sub_diag. cbn [app read_at]. rewrite P2 by lia. rewrite R2, Nat.eqb_refl. reflexivity.
                        +++ replace (k - n)%nat with (S (k - n - 1)) by lia. cbn [app read_at].
-                           replace (di + k)%nat with (S (di + n) + (k - n - 1))%nat by lia. apply P3. unfold byte in *. cbn [length] in *. lia.
+                           replace (di + k)%nat with (S (di + n) + (k - n - 1))%nat by lia. apply P3. cbn [length] in *. lia.
              ++ destruct (Nat.ltb_spec (n + S si) E); [lia|].
                 destruct (Nat.eqb_spec (E - S si - n) 0); [|lia]. cbn [negb].
                 assert (Hinv2 : loop_inv buf1 (n + S si) (di + n)).
@@ -235,13 +235,13 @@ Section Loop.
                 rewrite skipn_skipn' in *. replace (S si + n)%nat with (n + S si)%nat in * by lia.
                 destruct (cobs_dec_ref (skipn (n + S si) frame)) as [tail|]; [|exact IH].
                 destruct IH as (buf' & Ed & HP). exists buf'. cbn [app]. rewrite app_length, Lfn.
-                replace (di + (n + length tail))%nat with (di + n + length tail)%nat by lia. split; [unfold byte in *; rewrite Ed; do 3 f_equal; apply dst_eq; cbn [length]; lia|].
-                destruct HP as (P1 & P2 & P3 & P4 & P5). unfold loop_post; unfold byte in *; cbn [length]; rewrite ?app_length, ?Lfn; cbn [length]. repeat split; try assumption; try lia.
+                replace (di + (n + length tail))%nat with (di + n + length tail)%nat by lia. split; [rewrite Ed; do 3 f_equal; apply dst_eq; cbn [length]; lia|].
+                destruct HP as (P1 & P2 & P3 & P4 & P5). unfold loop_post; cbn [length]; rewrite ?app_length, ?Lfn; cbn [length]. repeat split; try assumption; try lia.
                 ** intros i Hi. rewrite P2 by lia. rewrite R1.
                    destruct (Nat.leb_spec di i), (Nat.ltb_spec i (di + n)); cbn [andb]; try lia; reflexivity.
                 ** intros k Hk. rewrite read_at_app, Lfn. destruct (Nat.ltb_spec k n).
                    --- rewrite P2 by lia. apply Hdata. assumption.
-                   --- replace (di + k)%nat with (di + n + (k - n))%nat by lia. apply P3. unfold byte in *. cbn [length] in *. rewrite ?app_length, ?Lfn in Hk. lia.
+                   --- replace (di + k)%nat with (di + n + (k - n))%nat by lia. apply P3. cbn [length] in *. rewrite ?app_length, ?Lfn in Hk. lia.
   Qed.
 End Loop.
 
